@@ -375,7 +375,8 @@ class FakeSnowflakeCursor:
         self._rowcount = affected_count if affected_count is not None else self._arrow_table.num_rows
 
         self._last_sql = result_sql or sql
-        self._last_params = params
+        # the params belong to the statement, not to the status query that replaces it
+        self._last_params = None if result_sql else params
 
     def _log_sql(self, sql: str, params: Sequence[Any] | dict[Any, Any] | None = None) -> None:
         if (fs_debug := os.environ.get("FAKESNOW_DEBUG")) and fs_debug != "snowflake":
